@@ -92,7 +92,11 @@ def mk_region(opspec, accelerator="acc", body_ops=None, arg_types=None):
     from snaxc.dialects import dart
     from snaxc.dialects.snax_stream import StreamingRegionOp, StridePattern
     pre, vals = [], []
-    for kind in opspec["operands"]:
+    outer = Block(arg_types=[IndexType()] * len(opspec["operands"]))
+    for k, kind in enumerate(opspec["operands"]):
+        if kind == "b":      # pointer is a block argument (not an OpResult)
+            vals.append(outer.args[k])
+            continue
         if kind == "p":
             o = test.TestOp(result_types=[IndexType()])
             vals.append(o.res[0])
@@ -108,6 +112,7 @@ def mk_region(opspec, accelerator="acc", body_ops=None, arg_types=None):
         block.add_ops(body_ops(block))
     n_in = max(0, len(vals) - 1)
     op = StreamingRegionOp(vals[:n_in], vals[n_in:], pats, accelerator, Region(block))
+    op._verif_outer = outer      # keep the block arguments alive
     return op, pre
 
 
@@ -154,8 +159,11 @@ def region_text(opspec, accelerator, body):
     """body = {"args": [stream element types], "pre": [lines before the region], "ops": [lines inside]}"""
     lines = list(body.get("pre", []))
     names = []
+    fargs = []
     for k, kind in enumerate(opspec["operands"]):
-        if kind == "p":
+        if kind == "b":
+            fargs.append(f"%p{k} : index")
+        elif kind == "p":
             lines.append(f'%p{k} = "test.op"() : () -> index')
         else:
             lines.append(f"%p{k} = arith.constant {0 if kind == 'z' else 7} : index")
@@ -170,7 +178,7 @@ def region_text(opspec, accelerator, body):
     lines.append(f"^bb0({args}):")
     lines.extend(body["ops"])
     lines.append("}) : (" + ", ".join(["index"] * n) + ") -> ()")
-    return "func.func @f() {\n" + "\n".join(lines) + "\nfunc.return\n}\n"
+    return f"func.func @f({', '.join(fargs)}) {{\n" + "\n".join(lines) + "\nfunc.return\n}\n"
 
 
 def parse_region(text):
@@ -202,8 +210,8 @@ def _rescale_attrs(r):
 
 def gen_rescale(rng, n=None, lens=None):
     L = rng.choice(lens) if lens else 1
-    return {"zpin": rng.choice([0, 3, -7, 127]), "zpout": rng.choice([0, -4, 5, -128]),
-            "mult": [rng.randrange(1, 2 ** 30) for _ in range(L)], "shift": [rng.randrange(0, 48) for _ in range(L)],
+    return {"zpin": rng.choice([1, 3, -7, 127]), "zpout": rng.choice([0, -4, 5, -128]),
+            "mult": [rng.randrange(1000, 2 ** 30) for _ in range(L)], "shift": [rng.randrange(10, 48) for _ in range(L)],
             "max": rng.choice([127, 100]), "min": rng.choice([-128, -100]), "dr": rng.choice([0, 1])}
 
 
@@ -337,7 +345,7 @@ def gen_op(rng, spec, valid_only=False):
             if rng.random() < 0.2:
                 ss[i] = 0
         pats.append((ub, ts, ss))
-        operands.append(rng.choice("pppzc"))
+        operands.append(rng.choice("ppbbzzc"))
     if not valid_only and rng.random() < 0.04:
         if rng.random() < 0.5:
             pats = pats[:-1]
@@ -450,6 +458,19 @@ def correspondence(ctx):
     groups.append(("len", "chk_len", lens, list(EXT_KINDS)))
     for e in EXT_KINDS:
         ctx.count({"csr_length": e}, False, None, "csr_length")
+
+    # extension CSR values (order of the rescale parameters)
+    cases, meta = [], []
+    for i in range(12):
+        r = gen_rescale(rng)
+        for kind, e in (("rescale_down", "ERescaleDown"), ("rescale_up", "ERescaleUp"), ("add_i32", "EAdd")):
+            _, op = parse_region(region_text({"pats": [([4], [8], [8])] * 2, "operands": ["p", "p"]}, "snax_xdma", xdma_body(kind, 2, r)))
+            kernel_op = op.body.block.first_op.body.block.first_op
+            vals = [int(x) for x in oc[e]().get_csr_values(kernel_op)]
+            cases.append(f"({e}, {coq_rescale(r)}, {zlist(vals)})")
+            meta.append({"ext": e, "rescale": r, "values": vals})
+            ctx.count({"kind": "ext-csr", "ext": e, "rescale": r}, True, f"ec{e}{r}", "ext-csr")
+    groups.append(("extcsr", "chk_extcsr", cases, meta))
 
     # regular system
     n = ctx.n(200, 1000)
@@ -757,8 +778,17 @@ def l2_alu(spec, opspec):
 XNAME_RE = re.compile(r"^([a-z])_(enabled_chan|enabled_byte|bypass|([a-z_]+?)_(\d+))$")
 
 
-def xdma_extra(spec, opspec, matches):
+def ext_csr_spec(e, resc):
+    """what each extension's CSRs mean (rescale: input_zp, multiplier, output_zp, shift; add: number of inputs)"""
+    if e in ("ERescaleDown", "ERescaleUp"):
+        return [resc["zpin"], resc["mult"][0], resc["zpout"], resc["shift"][0]]
+    return {"EAdd": [2], "EAddLong": [2], "ETranspose": [3], "EMemSet": [0], "EMaxPool": [1]}[e]
+
+
+def xdma_extra(spec, opspec, matches, resc=None):
     S, X = _impl()
+    if matches is not None and resc is not None:
+        matches = [(e, ext_csr_spec(e, resc)) for e, _ in matches]
     oc = opt_classes()
     by_name = {oc[e]().name: e for e in EXT_KINDS}
 
@@ -806,7 +836,7 @@ def l2_xdma(spec, opspec, kind, resc, through_pass=False):
         _, op = parse_region(text)
         matches = xdma_matches(op, spec)
         names, got = lower_with(acc, op)
-    probs = check_setup(names, got, spec, opspec, xdma_extra(spec, opspec, matches))
+    probs = check_setup(names, got, spec, opspec, xdma_extra(spec, opspec, matches, resc))
     return probs, xdma_klass(spec, opspec, matches)
 
 
@@ -993,7 +1023,7 @@ def search(ctx, deep=False):
             spec = [(f, sp, opts if "OChanMask" in opts else opts + ["OChanMask"]) for (f, sp, opts) in spec]
         opspec = gen_op(rng, spec, valid_only=True)
         if rng.random() < 0.7:
-            opspec["operands"] = [rng.choice("pc")] * len(spec) if rng.random() < 0.8 else ["z"] * len(spec)
+            opspec["operands"] = [rng.choice("pcb")] * len(spec) if rng.random() < 0.8 else ["z"] * len(spec)
         kind = rng.choice(XDMA_BODIES[2:] if rng.random() < 0.8 else XDMA_BODIES)
         resc = gen_rescale(rng)
         case = {"cfg": spec, "op": opspec, "body": kind, "rescale": resc, "through_pass": default}
